@@ -19,7 +19,9 @@ import vlib
 
 # model-checking configuration per family and tier: (module, cfg)
 MC = {
-    "ledger": {"quick": ("MCLedger", "mc/MCLedger_q.cfg"), "thorough": ("MCLedger", "mc/MCLedger.cfg")},
+    "ledger": {"quick": ("MCLedger", "mc/MCLedger_q.cfg"),
+               # thorough: the exhaustive configuration, then every menu together (9 transactions in 4 blocks) drawn at random for five minutes
+               "thorough": [("MCLedger", "mc/MCLedger.cfg"), ("MCLedger", "mc/MCLedger_sim.cfg", {"simulate": 300})]},
     "durability": {"quick": ("Durability", "mc/MCDurability_C09.cfg"), "thorough": ("Durability", "mc/MCDurability_C09_t.cfg")},
     "crash": {"quick": ("Durability", "mc/MCDurability_C10.cfg"), "thorough": ("Durability", "mc/MCDurability_C10.cfg")},
 }
